@@ -137,6 +137,19 @@ func (s *MultilineReverseSuffixSearcher) verifyPrefix(haystack []byte, at int) b
 	return bytes.HasPrefix(haystack[at:], s.prefixBytes)
 }
 
+// lineMatchEnd decides one candidate line. The prefix literal, when there is one, is only
+// a quick rejection test: whether the line start begins a match, and where that match
+// ends, is decided by the forward DFA anchored there. (The suffix found by the prefilter
+// is the FIRST one on the line while a greedy `.*` runs to the last one, and whatever lies
+// between the prefix and the suffix - `.+`, a class - still has to match.)
+// Returns the match end, or -1.
+func (s *MultilineReverseSuffixSearcher) lineMatchEnd(haystack []byte, lineStart int, fwdCache *lazy.DFACache) int {
+	if len(s.prefixBytes) > 0 && !s.verifyPrefix(haystack, lineStart) {
+		return -1
+	}
+	return s.forwardDFA.SearchAtAnchored(fwdCache, haystack, lineStart)
+}
+
 // Find searches using suffix literal prefilter + line-aware verification.
 //
 // Fast path (when prefix literals available):
@@ -171,9 +184,11 @@ func (s *MultilineReverseSuffixSearcher) Find(haystack []byte) *Match {
 
 		// Fast path: simple prefix verification (just byte comparison)
 		if len(s.prefixBytes) > 0 {
-			if s.verifyPrefix(haystack, lineStart) {
-				// Match found! No DFA needed.
-				return NewMatch(lineStart, suffixPos+s.suffixLen, haystack)
+			fwdCache := s.fwdCachePool.Get().(*lazy.DFACache)
+			end := s.lineMatchEnd(haystack, lineStart, fwdCache)
+			s.fwdCachePool.Put(fwdCache)
+			if end >= 0 {
+				return NewMatch(lineStart, end, haystack)
 			}
 			// Prefix doesn't match at this line start.
 			// Optimization: skip to next line - all other candidates on this line
@@ -230,8 +245,11 @@ func (s *MultilineReverseSuffixSearcher) FindAt(haystack []byte, at int) *Match 
 
 		// Fast path: simple prefix verification
 		if len(s.prefixBytes) > 0 {
-			if s.verifyPrefix(haystack, lineStart) {
-				return NewMatch(lineStart, suffixPos+s.suffixLen, haystack)
+			fwdCache := s.fwdCachePool.Get().(*lazy.DFACache)
+			end := s.lineMatchEnd(haystack, lineStart, fwdCache)
+			s.fwdCachePool.Put(fwdCache)
+			if end >= 0 {
+				return NewMatch(lineStart, end, haystack)
 			}
 			// Prefix doesn't match - skip to next line
 			nextLine := bytes.IndexByte(haystack[suffixPos:], '\n')
@@ -296,8 +314,8 @@ func (s *MultilineReverseSuffixSearcher) findIndicesAtImpl(haystack []byte, at i
 
 		// Fast path: simple prefix verification
 		if len(s.prefixBytes) > 0 {
-			if s.verifyPrefix(haystack, lineStart) {
-				return lineStart, suffixPos + s.suffixLen, true
+			if end := s.lineMatchEnd(haystack, lineStart, fwdCache); end >= 0 {
+				return lineStart, end, true
 			}
 			// Prefix doesn't match - skip to next line
 			nextLine := bytes.IndexByte(haystack[suffixPos:], '\n')
@@ -351,7 +369,10 @@ func (s *MultilineReverseSuffixSearcher) IsMatch(haystack []byte) bool {
 
 		// Fast path: simple prefix verification
 		if len(s.prefixBytes) > 0 {
-			if s.verifyPrefix(haystack, lineStart) {
+			fwdCache := s.fwdCachePool.Get().(*lazy.DFACache)
+			end := s.lineMatchEnd(haystack, lineStart, fwdCache)
+			s.fwdCachePool.Put(fwdCache)
+			if end >= 0 {
 				return true
 			}
 			// Prefix doesn't match - skip to next line
